@@ -76,18 +76,24 @@ Definition holds_sess (c : sess_case) : bool :=
    the recorded invocations (method, tokens of its arguments) and what the runtime end got back *)
 Record disp_case := {
   dc_plugin : N; dc_carrier : carrier; dc_event : Z; dc_fields : list (string * string);
-  dc_seq : string; dc_fail : bool; dc_empty : bool; dc_inv : list invocation; dc_reply : reply }.
+  dc_seq : string; dc_fail : bool; dc_empty : bool; dc_upd : option string;
+  dc_inv : list invocation; dc_reply : reply }.
 
 (* the scripted behaviour of the plugin's methods in one delivery: every method returns tokens
    that name the method and the delivery (the harness scripts the same tokens), so that a
    result relayed from the wrong method or from an earlier delivery is visible *)
-Definition mk_beh (s : string) (fail empty : bool) (meth : string) : hresult :=
+Definition mk_beh (s : string) (fail empty : bool) (upd : option string) (meth : string) : hresult :=
   {| r_adjust := if empty then "" else "A:" ++ meth ++ ":" ++ s;
-     r_update := if empty then "" else "U:" ++ meth ++ ":" ++ s ++ "+V";
+     (* upd = Some l: every method returns exactly the update list l ('+'-separated container ids, "" = nil),
+        e.g. lists that name the request's own container *)
+     r_update := match upd with
+                 | Some l => l
+                 | None => if empty then "" else "U:" ++ meth ++ ":" ++ s ++ "+V"
+                 end;
      r_error := if fail then "E:" ++ meth ++ ":" ++ s else "" |}.
 
 Definition dc_msg (c : disp_case) : message := {| m_event := dc_event c; m_fields := dc_fields c |}.
-Definition dc_beh (c : disp_case) : string -> hresult := mk_beh (dc_seq c) (dc_fail c) (dc_empty c).
+Definition dc_beh (c : disp_case) : string -> hresult := mk_beh (dc_seq c) (dc_fail c) (dc_empty c) (dc_upd c).
 
 Definition corr_disp (c : disp_case) : bool :=
   delivery_eqb (deliver (dc_plugin c) (dc_carrier c) (dc_msg c) (dc_beh c)) (dc_inv c, dc_reply c).
